@@ -1,4 +1,5 @@
 import GGV.Model.Checkers
+import GGV.Lemmas.Respell
 /-!
 # C13 — Enforcement follows type identity, not spelling at the use site
 
@@ -131,5 +132,27 @@ example : Identical (.alias (some (ascii "exp/b")) (ascii "A") T) T := rfl      
 example : Identical (.ptr (.alias (some (ascii "exp/b")) (ascii "A") T)) (.ptr T) := rfl          -- pointer to an alias
 example : Identical (.alias none (ascii "PX") (.ptr T)) (.ptr T) := rfl                          -- alias of a pointer
 example : typeInfo (some (.alias none (ascii "PX") (.ptr (.alias none (ascii "A") T)))) = some (ascii "exp/a", ascii "T") := by decide
+
+
+/-! ## the whole analysis -/
+
+theorem norm_eq (t : Ty) : t.norm = norm t := by
+  induction t with
+  | alias p n r ih => simpa [Ty.norm, norm] using ih
+  | ptr e ih => simp [Ty.norm, norm, ih]
+  | _ => rfl
+
+/-- **re-spelling invariance of the whole analysis**: replace, at every use site of a package (operands of field
+    writes, literals, `new`, declared variables, fields and parameters, method receivers), the type by an identical
+    one — through a local alias, an alias of a third package, an alias of a pointer, a pointer to an alias. The
+    annotations read and the diagnostics (codes, statements, order) are unchanged. -/
+theorem respell_program_invariant (σ : Ty → Ty) (hσ : ∀ t, Identical (σ t) t)
+    (cfg : Cfg) (facts : List (Name × Annotations)) (p : Pkg) :
+    (analyze cfg facts (p.mapTy σ)).ann = (analyze cfg facts p).ann ∧
+    (analyze cfg facts (p.mapTy σ)).diags = (analyze cfg facts p).diags :=
+  analyze_mapTy σ (fun t => by rw [norm_eq, norm_eq]; exact hσ t) cfg facts p
+
+/-- non-vacuity: wrapping every type in a fresh alias is a re-spelling -/
+example : ∀ t, Identical ((fun t => Ty.alias (some (ascii "exp/u")) (ascii "A") t) t) t := fun _ => rfl
 
 end GGV.Props.C13
